@@ -57,9 +57,11 @@ Definition check (V : vtables) (cq cc : config) (c : qcase) : bool :=
 Definition bad_cases_with (V : vtables) (cq cc : config) (cs : list (nat * qcase)) : list nat :=
   map fst (filter (fun c => negb (check V cq cc (snd c))) cs).
 
-(** what gen/backend.py extracts from the repaired source; used for the correspondence run only when
-    the translator refuses the source *)
-Definition doc_vt : vtables :=
+(** what gen/backend.py extracts from the source (with the range-check repair; [c]: whether
+    ControlledGate.as_qasm refuses non-standard control states, which the harness finds out by running it);
+    used for the correspondence run only when the translator refuses the source *)
+Definition doc_vt_c (c : bool) : vtables :=
   {| vt_shots_refused := fun s m => m <? s; vt_scope := ScopeAll; vt_empty_guard := true;
      vt_range_refused := fun l mn mx n => (n <? l) || (mn <? 0) || (n <=? mx);
-     vt_params_ok := fun a b => a =? b; vt_ctrl_std_checked := true |}.
+     vt_params_ok := fun a b => a =? b; vt_ctrl_std_checked := c |}.
+Definition doc_vt : vtables := doc_vt_c true.
